@@ -30,8 +30,14 @@ def model_case(sysm, u, model):
                 orc['%s.%s' % (who, nm)] = ev(v)
         launches = [key for key, (g, f) in u.obs[k + 1].ev.get('launch', {}).items() if ev(g)]
         spawns = [key for key, (g, f) in u.obs[k + 1].ev.get('spawn', {}).items() if ev(g)]
-        steps.append({'alt': list(name), 'oracles': {a: b for a, b in orc.items() if _relevant(name, a)}, 'launch': launches, 'spawn': spawns})
-    launch0 = [key for key, (g, f) in u.obs[0].ev.get('launch', {}).items() if ev(g)]
+        sfails = [key for key, (g, f) in u.obs[k + 1].ev.get('spawn_failed', {}).items() if ev(g)]
+        steps.append({'alt': list(name), 'oracles': {a: b for a, b in orc.items() if _relevant(name, a)}, 'launch': launches, 'spawn': spawns,
+                      'spawn_failed': sfails})
+    # engine::run requests the roots in command-line order; the CLI args are roots then duplicated roots
+    launch0 = []
+    for i in roots + dups:
+        if i not in launch0:
+            launch0.append(i)
     hang = [i for i in range(n) if ev(z3.Bool('hang_%d' % i))]
     final_phase = model.eval(u.states[-1]['main.phase'], model_completion=True).as_long()
     return {'final_phase': final_phase, 'final_err': ev(u.states[-1]['main.err']),'kinds': list(sysm.kinds), 'watch': sysm.watch, 'deps': deps, 'roots': roots, 'dup_roots': dups, 'launch0': launch0,
@@ -66,6 +72,7 @@ def write_project(case, d):
             open(os.path.join(d, 'src_t%d' % i, 'in.txt'), 'w').write('v0\n')
             lines.append('    input:')
             lines.append('      - paths: [src_t%d]' % i)
+            lines.append('      - cmd_stdout: date +%s%N')     # never "unchanged": the skip decision is an oracle in the protocol model
     open(os.path.join(d, 'zinoma.yml'), 'w').write('\n'.join(lines) + '\n')
     args = ['t%d' % i for i in case['roots']] + ['t%d' % i for i in case.get('dup_roots', [])]
     if case['watch']:
@@ -81,6 +88,7 @@ def schedule_for(case, project_dir):
     watcher_of = {}
     nwatch = 0
     edits = {}
+    attempts = {}
 
     def task(i):
         return 2 + order.index(i)
@@ -122,9 +130,6 @@ def schedule_for(case, project_dir):
                 lines.append('notify %d ok %s' % (watcher_of[i], path))
         elif a == 'bf_start':
             i = alt[1]
-            for o, v in st['oracles'].items():
-                if 'spawn_fails' in o and v:
-                    header.append('failspawn echo t%d' % i)
             lines.append('poll %d -' % task(i))
             lines.append(relay)
         elif a == 'bf_cancel':
@@ -147,9 +152,11 @@ def schedule_for(case, project_dir):
             lines.append('poll 0 -')
         else:
             lines.append('# unknown alternative %r' % (alt,))
-        for o, v in st['oracles'].items():
-            if 'spawn_fails' in o and v and a != 'bf_start':
-                header.append('failspawn echo t%d' % alt[1])
+        for t in st['spawn']:
+            attempts[t] = attempts.get(t, 0) + 1
+        for t in st.get('spawn_failed', []):
+            header.append('failspawn %d echo t%d' % (attempts.get(t, 0), t))
+            attempts[t] = attempts.get(t, 0) + 1
     return header + lines, order
 
 
